@@ -17,6 +17,11 @@ package cli
 //@   props C17 C16 C12 C13
 //@   at@C16 call fs.String#1 assert arg0 == "build-tags" && arg1 == "goverter"
 //@   at@C16 call fs.String#2 assert arg0 == "output-constraint" && arg1 == "!goverter"
+// C17: gen without a PATTERN is a usage error, whatever options precede it
+//@   ensures@C17 err == nil && dynIs[*Generate](result) ==> len(unboxed[*Generate](result).Config.PackagePatterns) > 0
+// C16/C12: the option values are handed on as given
+//@   at@C16 return assert err == nil && dynIs[*Generate](result0) ==> unboxed[*Generate](result0).Config.OutputBuildConstraint == *outputConstraint
+//@           && unboxed[*Generate](result0).Config.BuildTags == *buildTags && unboxed[*Generate](result0).Config.WorkingDir == *cwd
 //@   ensures err != nil ==> result == nil
 //@   ensures err == nil ==> result != nil && (dynIs[*Help](result) || dynIs[*Generate](result))
 //@   ensures err == nil && dynIs[*Generate](result) ==> unboxed[*Generate](result).Config != nil && unboxed[*Generate](result).Config.EnumTransformers != nil
